@@ -1469,6 +1469,31 @@ func (fe *FnEnc) loopResolver(h *ssa.BasicBlock, over map[*ssa.Phi]Val, ev *Eval
 				best, bestDepth = d, dd
 			}
 		}
+		// a variable last changed by an earlier loop is that loop's phi (in a block dominating h), which is
+		// more recent than a reference in a block above it
+		var bestPhi *ssa.Phi
+		phiDepth := -1
+		for _, b := range fe.fn.Blocks {
+			if b == h || !b.Dominates(h) {
+				continue
+			}
+			for _, ins := range b.Instrs {
+				p, ok := ins.(*ssa.Phi)
+				if !ok {
+					break
+				}
+				if p.Comment == name {
+					if dd := domDepth(b); dd > phiDepth {
+						bestPhi, phiDepth = p, dd
+					}
+				}
+			}
+		}
+		if bestPhi != nil && (best == nil || phiDepth > bestDepth) {
+			if v, ok := fe.vals[bestPhi]; ok {
+				return v, true
+			}
+		}
 		if best != nil {
 			if best.IsAddr {
 				a := fe.ptrAddr(fe.val(best.X))
